@@ -220,6 +220,26 @@ func main() {
 			emit(ev.M{"ev": "Pco", "ids": ids, "contents": contents, "bytes": ev.Ints(b), "backIds": bids, "backContents": bcontents,
 				"panic": p != "" || p2 != "", "err": err != nil})
 		}
+		// the helper constructors of the option list (TS 24.008 table 10.5.154 container identifiers)
+		for rep := 0; rep < 3; rep++ {
+			ip4 := net.IPv4(byte(r.Intn(256)), byte(r.Intn(256)), 0, 255)
+			ip6 := net.IP(ev.Bytes(r, 16))
+			mtu := []int{1500, 0, 65535}[rep]
+			pco := nasConvert.NewProtocolConfigurationOptions()
+			var b []byte
+			var e1, e2, e3 error
+			p := ev.Catch(func() {
+				pco.AddDNSServerIPv4AddressRequest()
+				pco.AddDNSServerIPv6AddressRequest()
+				pco.AddIPAddressAllocationViaNASSignallingUL()
+				e1 = pco.AddDNSServerIPv4Address(ip4)
+				e2 = pco.AddDNSServerIPv6Address(ip6)
+				e3 = pco.AddIPv4LinkMTU(uint16(mtu))
+				b = pco.Marshal()
+			})
+			emit(ev.M{"ev": "PcoHelpers", "ip4": ev.Ints(ip4.To4()), "ip6": ev.Ints(ip6), "mtu": mtu, "bytes": ev.Ints(b),
+				"panic": p != "", "err": e1 != nil || e2 != nil || e3 != nil})
+		}
 		// DNN
 		for _, l := range []int{0, 1, 8, 63, 100} {
 			d := util_3gpp.Dnn(ev.Bytes(r, l))
